@@ -412,7 +412,7 @@ func init() {
 		ID:          "C19",
 		Level:       "model_checking",
 		Technique:   "exhaustive enumeration of (middleware count, failing position, auth, terminate hook) configurations x command histories x delivery mode on a real server, judged by a lifecycle reference machine with context probes inside every callback",
-		Rule:        "m in 0..3 middlewares, failing position none|1..m (returning its context or a nil context with the error), auth none|cleartext, terminate hook absent|ok|error (60 configurations) x all histories of length <= d over {Query ok, Query err, Parse+Bind+Execute+Sync, a failing Bind without Sync, Terminate, EOF} x {message by message, one segment}; transport faults: 3 configurations x histories of <= 2 letters x the k-th write (k <= 8) after the start-up failing for good: every command context is cancelled once the connection has ended",
+		Rule:        "m in 0..3 middlewares, failing position none|1..m (returning its context or a nil context with the error), auth none|cleartext, terminate hook absent|ok|error (60 configurations) x all histories of length <= d over {Query ok, Query err, Parse+Bind+Execute+Sync, a failing Bind without Sync, Terminate, EOF} x {message by message, one segment}; several users: all step sequences of length <= 5 over 3 users connected at the same time (with / without global parameters), every callback probing the context of its own connection; transport faults: 3 configurations x histories of <= 2 letters x the k-th write (k <= 8) after the start-up failing for good: every command context is cancelled once the connection has ended",
 		Assumptions: []string{"context cancellation is observed at the next quiescence on the retained context"},
 		Enumerate:   c19Enumerate,
 		Bounds: func(tier string) map[string]any {
@@ -427,6 +427,85 @@ func c19Depth(tier string) int {
 		return 5
 	}
 	return 3
+}
+
+// c19RunUsers: connections of different users alive at the same time on one server (with and without configured
+// global parameters and middlewares that tag the context): every parser / statement call of a connection sees
+// THAT connection's context - its user, its parameters, the value its own middleware run added - whatever the
+// other connections have done meanwhile.
+func c19RunUsers(global bool, order []int) explore.Result {
+	var res explore.Result
+	res.Outcome = "several-connections"
+	res.Key = fmt.Sprint("users", global, order)
+	users := []string{"alice", "bob", "carol"}
+	var problems []string
+	type key struct{}
+	serial := 0
+	opts := []wire.OptionFn{wire.SessionMiddleware(func(ctx context.Context) (context.Context, error) {
+		serial++
+		return context.WithValue(ctx, key{}, fmt.Sprintf("%s#%d", wire.ClientParameters(ctx)["user"], serial)), nil
+	})}
+	if global {
+		opts = append(opts, wire.GlobalParameters(wire.Parameters{"a": "1", "TimeZone": "UTC"}))
+	}
+	tags := map[string]string{}
+	probe := func(ctx context.Context, where string) {
+		cp, sp := wire.ClientParameters(ctx), wire.ServerParameters(ctx)
+		user := string(cp["user"])
+		tag, _ := ctx.Value(key{}).(string)
+		if !strings.HasPrefix(tag, user+"#") {
+			problems = append(problems, fmt.Sprintf("%s of %s's connection: the context carries the middleware value %q", where, user, tag))
+		}
+		if prev, ok := tags[wire.RemoteAddress(ctx).String()]; ok && prev != tag {
+			problems = append(problems, fmt.Sprintf("%s of %s's connection: middleware value changed from %q to %q", where, user, prev, tag))
+		}
+		tags[wire.RemoteAddress(ctx).String()] = tag
+		if sp["session_authorization"] != user || wire.AuthenticatedUsername(ctx) != user {
+			problems = append(problems, fmt.Sprintf("%s of %s's connection: ServerParameters say session_authorization=%q, AuthenticatedUsername=%q", where, user, sp["session_authorization"], wire.AuthenticatedUsername(ctx)))
+		}
+		if cp["application_name"] != "app-of-"+user {
+			problems = append(problems, fmt.Sprintf("%s of %s's connection: ClientParameters say application_name=%q", where, user, cp["application_name"]))
+		}
+	}
+	rec := &script.Rec{}
+	rec.Hook = func(ctx context.Context, where string) { probe(ctx, "statement function") }
+	inner := rec.ParseFn()
+	parse := func(ctx context.Context, q string) (wire.PreparedStatements, error) {
+		probe(ctx, "parser")
+		return inner(ctx, q)
+	}
+	srv, err := harness.NewServer(parse, opts...)
+	if err != nil {
+		res.Engine = err.Error()
+		return res
+	}
+	defer srv.Stop()
+	conns := map[int]*harness.Conn{}
+	for i, u := range order {
+		c := conns[u]
+		if c == nil {
+			c = srv.Connect()
+			conns[u] = c
+			if out, _ := c.Step(pgproto.Startup("user", users[u], "application_name", "app-of-"+users[u])); !strings.HasSuffix(harness.Kinds(out), "Z") {
+				res.Fail("startup", fmt.Sprintf("step %d: startup of %s answered %q", i, users[u], harness.Kinds(out)))
+				return res
+			}
+			continue
+		}
+		msgs := pgproto.Query(progRows)
+		if i%2 == 1 {
+			msgs = pgproto.Cat(pgproto.Parse("", progRows), pgproto.Bind("", "", nil, nil, nil), pgproto.Execute("", 0), pgproto.Sync())
+		}
+		if out, _ := c.Step(msgs); !strings.HasSuffix(harness.Kinds(out), "DCZ") {
+			res.Fail("reply", fmt.Sprintf("step %d: command of %s answered %q", i, users[u], harness.Kinds(out)))
+		}
+	}
+	for _, p := range problems {
+		res.Fail("context-of-another-connection", fmt.Sprintf("order %v (global parameters configured: %v): %s", order, global, p))
+		break
+	}
+	res.Trans = []string{fmt.Sprintf("server|%d steps of %d users|server", len(order), len(conns))}
+	return res
 }
 
 // c19RunServer: several connections one after the other on ONE server: middlewares and the terminate
@@ -500,6 +579,20 @@ func c19Enumerate(tier string, emit explore.Emit) {
 			}
 		}
 	}
+	// connections of different users alive at the same time: every step is "connect" (first mention of a user) or
+	// "run a command" (later mentions); all step sequences of length <= 5 over 3 users
+	forShapes(3, 5, func(sh []int) {
+		if len(sh) < 3 {
+			return
+		}
+		order := append([]int(nil), sh...)
+		for _, global := range []bool{false, true} {
+			global := global
+			emit(explore.Case{Family: "several-users", Size: 30 + len(order),
+				Desc: func() any { return map[string]any{"steps_by_user": order, "global_parameters_configured": global} },
+				Run:  func() explore.Result { return c19RunUsers(global, order) }})
+		}
+	})
 	letters := c19Letters()
 	// transport faults: every position of the first failing write x histories of statement-running letters
 	for _, cfg := range []c19Config{{M: 1, Hook: "absent"}, {M: 2, Hook: "ok"}, {M: 0, Hook: "error"}} {
